@@ -109,6 +109,43 @@ def names_loaded(node):
     return {n.id for n in ast.walk(node) if isinstance(n, ast.Name) and isinstance(n.ctx, ast.Load)}
 
 
+_MUTATING_METHODS = ('append', 'extend', 'insert', 'add', 'update', 'pop', 'remove', 'sort', 'reverse', 'clear', 'setdefault', 'popitem',
+                     'fill', 'put', 'resize', 'itemset', 'add_', 'mul_', 'sub_', 'div_', 'copy_', 'zero_', 'fill_', 'clamp_')
+
+
+def store_path(t):
+    """`a.b[i].c[j] = ..` writes into the object `a.b[i].c`; the dotted prefix before the first subscript names it: 'a.b'.
+    A plain attribute store `a.b = ..` re-binds 'a.b'."""
+    chain = []
+    e = t
+    while isinstance(e, (ast.Subscript, ast.Attribute)):
+        chain.append(e)
+        e = e.value
+    if not isinstance(e, ast.Name):
+        return None
+    parts = [e.id]
+    for c in reversed(chain):
+        if isinstance(c, ast.Attribute):
+            parts.append(c.attr)
+        else:
+            break
+    return '.'.join(parts)
+
+
+def read_paths(e):
+    out = set()
+    for x in ast.walk(e):
+        if isinstance(x, (ast.Name, ast.Attribute)) and isinstance(getattr(x, 'ctx', None), ast.Load):
+            p = dotted(x)
+            if p:
+                out.add(p)
+    return out
+
+
+def paths_conflict(w, r):
+    return w == r or w.startswith(r + '.') or r.startswith(w + '.')
+
+
 def free_names(e):
     """Names an expression reads from its surroundings (names bound by its own comprehensions / lambdas excluded)."""
     out = set()
@@ -864,6 +901,7 @@ class Flow:
         self.defs_at = {}       # node id -> [Def]
         self._between = {}
         self._inl_memo = {}
+        self._dom = {}
         self._collect()
         self._solve()
 
@@ -944,6 +982,34 @@ class Flow:
             out.setdefault(k, set()).update(v)
         return out
 
+    def written_paths(self, nid):
+        """Dotted paths of the objects a CFG node writes in place."""
+        if not hasattr(self, '_wpaths'):
+            self._wpaths = {}
+        if nid not in self._wpaths:
+            n = self.cfg.nodes[nid]
+            out = set()
+            a = n.ast
+            if a is not None and n.kind in ('stmt', 'return', 'test', 'for', 'with'):
+                roots = [a.iter] if n.kind == 'for' else ([a.test] if n.kind == 'test' and hasattr(a, 'test') else [a])
+                for root in roots:
+                    for x in walk_shallow(root) if isinstance(root, ast.stmt) else ast.walk(root):
+                        if isinstance(x, (ast.Subscript, ast.Attribute)) and isinstance(getattr(x, 'ctx', None), (ast.Store, ast.Del)):
+                            p = store_path(x)
+                            if p:
+                                out.add(p)
+                        elif isinstance(x, ast.Call) and isinstance(x.func, ast.Attribute) and x.func.attr in _MUTATING_METHODS:
+                            p = dotted(x.func.value)
+                            if p:
+                                out.add(p)
+                if isinstance(a, ast.Expr) and isinstance(a.value, ast.Call):
+                    for arg in list(a.value.args) + [k.value for k in a.value.keywords]:
+                        p = dotted(arg) if isinstance(arg, (ast.Name, ast.Attribute)) else None
+                        if p:
+                            out.add(p)
+            self._wpaths[nid] = out
+        return self._wpaths[nid]
+
     # queries ------------------------------------------------------------------
     def defs_reaching(self, name, at_ast):
         nid = self.cfg.node_of(at_ast)
@@ -1009,7 +1075,9 @@ class Flow:
                 if d.kind != 'assign' or d.path != () or d.value is None:
                     return node
                 def movable(e):
-                    """Every free variable of e means the same at the definition and at the use site."""
+                    """Every free variable of e means the same at the definition and at the use site, and no object e
+                    reads is written in place (element / attribute store, mutating method, passed to a call made for its
+                    effect) on a path in between."""
                     fvs = names_loaded(e)
                     for fv in fvs:
                         if flow.rd_in[d.node].get(fv, set()) != flow.rd_in[at_nid].get(fv, set()):
@@ -1018,13 +1086,26 @@ class Flow:
                         key = (d.node, at_nid)
                         if key not in flow._between:
                             flow._between[key] = flow.cfg.between(d.node, at_nid)
+                        reads = None
                         for mid in flow._between[key]:
                             for d2 in flow.defs_at.get(mid, ()):
                                 if d2.name in fvs or d2.name == node.id:
                                     return False
+                            w = flow.written_paths(mid)
+                            if w:
+                                if reads is None:
+                                    reads = read_paths(e)
+                                if any(paths_conflict(p, r) for p in w for r in reads):
+                                    return False
                     return True
                 if id(d) in active:
                     return node          # a definition that (through a loop) feeds itself: not a temporary
+                if d.node != at_nid:
+                    dk = (d.node, at_nid)
+                    if dk not in flow._dom:
+                        flow._dom[dk] = flow.cfg.must_pass(at_nid, [d.node])
+                    if not flow._dom[dk]:
+                        return node      # the definition reaches this use only around a loop (value of an earlier iteration)
                 inner = flow._inline_at(d.value, d.node, depth - 1, stop, active | {id(d)})
                 if movable(inner):
                     return inner
